@@ -236,6 +236,7 @@ type PathResult struct {
 	Stats     PathStats
 	Funcs     map[string]bool
 	Sample    []ReplayInput
+	Digests   []ReplayDigest
 	Decisions string
 	Foot      *footResult
 }
@@ -318,6 +319,9 @@ func (w *Worker) RunPath(fn *ssa.Function, item WorkItem, o *Options) (res *Path
 		}
 		res.Sample = append(res.Sample, ri)
 	}
+	for _, d := range p.digests {
+		res.Digests = append(res.Digests, ReplayDigest{d.name, p.ev.Eval(d.t)})
+	}
 	if p.foot != nil {
 		res.Foot = p.foot.result()
 	}
@@ -350,6 +354,7 @@ type HarnessResult struct {
 	Stats        PathStats
 	Funcs        map[string]bool
 	Samples      [][]ReplayInput
+	SampleDig    [][]ReplayDigest
 	SampleDec    []string
 	Exhaustive   bool
 	WallSeconds  float64
@@ -458,6 +463,7 @@ func (P *Program) Explore(fn *ssa.Function, o Options) *HarnessResult {
 					}
 					if len(hr.Samples) < 3 || (hr.Ended%257 == 0 && len(hr.Samples) < 8) {
 						hr.Samples = append(hr.Samples, res.Sample)
+						hr.SampleDig = append(hr.SampleDig, res.Digests)
 						hr.SampleDec = append(hr.SampleDec, res.Decisions)
 					}
 				case "assume":
